@@ -171,3 +171,16 @@ Proof.
   assert (Ht : 0 < tiny) by reflexivity.
   apply Qle_shift_div_r; lra.
 Qed.
+
+(* block restriction: the AGOP of the gradients restricted to a block's columns is the dense AGOP at those columns *)
+Definition select_cols (idx : list nat) (g : vec) : vec := map (fun k => nth k g 0) idx.
+
+Theorem block_entry (G : list vec) (idx : list nat) (a b : nat) : (a < length idx)%nat -> (b < length idx)%nat ->
+  entry (map (select_cols idx) G) a b == entry G (nth a idx O) (nth b idx O).
+Proof.
+  intros Ha Hb. unfold entry. rewrite map_map. induction G as [|g G IH]; cbn [map qsum]; [reflexivity|]. rewrite IH.
+  unfold select_cols.
+  rewrite (nth_indep _ 0 ((fun k => nth k g 0) O)) by (rewrite map_length; exact Ha).
+  rewrite (nth_indep (map _ idx) 0 ((fun k => nth k g 0) O)) by (rewrite map_length; exact Hb).
+  rewrite !(map_nth (fun k => nth k g 0)). reflexivity.
+Qed.
